@@ -55,3 +55,199 @@ def push(v):
 
 def push_n(v, n):
     return bytes([0x5f + n]) + v.to_bytes(n, "big")
+
+
+# ----------------------------------------------------------------------------------------------
+# programs
+
+OPS = {
+    "STOP": 0x00, "ADD": 0x01, "MUL": 0x02, "SUB": 0x03, "DIV": 0x04, "SDIV": 0x05, "MOD": 0x06, "SMOD": 0x07,
+    "ADDMOD": 0x08, "MULMOD": 0x09, "EXP": 0x0a, "SIGNEXTEND": 0x0b, "LT": 0x10, "GT": 0x11, "SLT": 0x12,
+    "SGT": 0x13, "EQ": 0x14, "ISZERO": 0x15, "AND": 0x16, "OR": 0x17, "XOR": 0x18, "NOT": 0x19, "BYTE": 0x1a,
+    "SHL": 0x1b, "SHR": 0x1c, "SAR": 0x1d, "SHA3": 0x20, "ADDRESS": 0x30, "BALANCE": 0x31, "ORIGIN": 0x32,
+    "CALLER": 0x33, "CALLVALUE": 0x34, "CALLDATALOAD": 0x35, "CALLDATASIZE": 0x36, "CALLDATACOPY": 0x37,
+    "CODESIZE": 0x38, "CODECOPY": 0x39, "GASPRICE": 0x3a, "EXTCODESIZE": 0x3b, "EXTCODECOPY": 0x3c,
+    "RETURNDATASIZE": 0x3d, "RETURNDATACOPY": 0x3e, "EXTCODEHASH": 0x3f, "BLOCKHASH": 0x40, "COINBASE": 0x41,
+    "TIMESTAMP": 0x42, "NUMBER": 0x43, "PREVRANDAO": 0x44, "GASLIMIT": 0x45, "CHAINID": 0x46,
+    "SELFBALANCE": 0x47, "BASEFEE": 0x48, "POP": 0x50, "MLOAD": 0x51, "MSTORE": 0x52, "MSTORE8": 0x53,
+    "SLOAD": 0x54, "SSTORE": 0x55, "JUMP": 0x56, "JUMPI": 0x57, "PC": 0x58, "MSIZE": 0x59, "GAS": 0x5a,
+    "JUMPDEST": 0x5b, "CREATE": 0xf0, "CALL": 0xf1, "CALLCODE": 0xf2, "RETURN": 0xf3, "DELEGATECALL": 0xf4,
+    "CREATE2": 0xf5, "STATICCALL": 0xfa, "REVERT": 0xfd, "INVALID": 0xfe, "SELFDESTRUCT": 0xff,
+}
+# (pops, pushes)
+ARITY = {
+    "ADD": (2, 1), "MUL": (2, 1), "SUB": (2, 1), "DIV": (2, 1), "SDIV": (2, 1), "MOD": (2, 1), "SMOD": (2, 1),
+    "ADDMOD": (3, 1), "MULMOD": (3, 1), "EXP": (2, 1), "SIGNEXTEND": (2, 1), "LT": (2, 1), "GT": (2, 1),
+    "SLT": (2, 1), "SGT": (2, 1), "EQ": (2, 1), "ISZERO": (1, 1), "AND": (2, 1), "OR": (2, 1), "XOR": (2, 1),
+    "NOT": (1, 1), "BYTE": (2, 1), "SHL": (2, 1), "SHR": (2, 1), "SAR": (2, 1), "SHA3": (2, 1), "ADDRESS": (0, 1),
+    "BALANCE": (1, 1), "ORIGIN": (0, 1), "CALLER": (0, 1), "CALLVALUE": (0, 1), "CALLDATALOAD": (1, 1),
+    "CALLDATASIZE": (0, 1), "CALLDATACOPY": (3, 0), "CODESIZE": (0, 1), "CODECOPY": (3, 0), "GASPRICE": (0, 1),
+    "EXTCODESIZE": (1, 1), "EXTCODECOPY": (4, 0), "RETURNDATASIZE": (0, 1), "RETURNDATACOPY": (3, 0),
+    "EXTCODEHASH": (1, 1), "BLOCKHASH": (1, 1), "COINBASE": (0, 1), "TIMESTAMP": (0, 1), "NUMBER": (0, 1),
+    "PREVRANDAO": (0, 1), "GASLIMIT": (0, 1), "CHAINID": (0, 1), "SELFBALANCE": (0, 1), "BASEFEE": (0, 1),
+    "POP": (1, 0), "MLOAD": (1, 1), "MSTORE": (2, 0), "MSTORE8": (2, 0), "SLOAD": (1, 1), "SSTORE": (2, 0),
+    "PC": (0, 1), "MSIZE": (0, 1), "GAS": (0, 1), "CREATE": (3, 1), "CALL": (7, 1), "CALLCODE": (7, 1),
+    "DELEGATECALL": (6, 1), "CREATE2": (4, 1), "STATICCALL": (6, 1),
+}
+ALU = ["ADD", "MUL", "SUB", "DIV", "SDIV", "MOD", "SMOD", "EXP", "LT", "GT", "SLT", "SGT", "EQ", "ISZERO", "AND",
+       "OR", "XOR", "NOT", "SHL", "SHR", "SAR"]
+ENV0 = ["ADDRESS", "ORIGIN", "CALLER", "CALLVALUE", "CALLDATASIZE", "CODESIZE", "GASPRICE", "RETURNDATASIZE",
+        "COINBASE", "TIMESTAMP", "NUMBER", "PREVRANDAO", "GASLIMIT", "CHAINID", "SELFBALANCE", "BASEFEE", "PC", "MSIZE", "GAS"]
+
+
+def small_or_boundary(rng, bw):
+    r = rng.random()
+    if r < 0.45:
+        return rng.randrange(0, 8)
+    if r < 0.6:
+        return rng.choice([0, 32, 64, 96, 128, 0x20, 0x40, 0x60, 0x80, 255, 256, 257])
+    if r < 0.9:
+        return rng.choice(bw)
+    return rng.getrandbits(256)
+
+
+class Asm:
+    """tiny assembler with labels; jump targets are emitted as PUSH2"""
+
+    def __init__(self):
+        self.items = []
+
+    def op(self, name):
+        self.items.append(("b", bytes([OPS[name]])))
+        return self
+
+    def raw(self, bs):
+        self.items.append(("b", bytes(bs)))
+        return self
+
+    def push(self, v, n=None):
+        self.items.append(("b", push(v) if n is None else push_n(v, n)))
+        return self
+
+    def label(self, name):
+        self.items.append(("l", name))
+        self.items.append(("b", bytes([0x5b])))
+        return self
+
+    def push_label(self, name):
+        self.items.append(("r", name))
+        return self
+
+    def assemble(self):
+        pos, labels = 0, {}
+        for k, v in self.items:
+            if k == "l":
+                labels[v] = pos
+            elif k == "b":
+                pos += len(v)
+            else:
+                pos += 3
+        out = b""
+        for k, v in self.items:
+            if k == "b":
+                out += v
+            elif k == "r":
+                out += push_n(labels.get(v, 0xffff), 2)
+        return out
+
+
+def random_program(rng, bw, n_ops=30, hostile=0.1, loops=True):
+    """stack-aware random program: mostly valid stack usage, constants biased to boundary values,
+    a share of raw/hostile bytes, jumps to valid and invalid targets, occasional loops"""
+    a = Asm()
+    depth = 0
+    labels = 0
+    open_labels = []
+    for _ in range(n_ops):
+        r = rng.random()
+        if r < hostile:
+            k = rng.random()
+            if k < 0.3:
+                a.raw([rng.randrange(256)])
+            elif k < 0.6:
+                name = rng.choice(list(ARITY))
+                a.op(name)
+                depth = max(0, depth - ARITY[name][0]) + ARITY[name][1]
+            elif k < 0.8:
+                a.push(rng.choice(bw)).op(rng.choice(["JUMP", "JUMPI", "MLOAD", "SHL", "MSTORE", "SHA3"]))
+                depth = max(0, depth - 1)
+            else:
+                a.raw([0x80 + rng.randrange(32)])  # DUP/SWAP maybe too deep
+            continue
+        if depth < 2 or r < 0.35:
+            a.push(small_or_boundary(rng, bw))
+            depth += 1
+        elif r < 0.6:
+            name = rng.choice(ALU)
+            a.op(name)
+            depth += ARITY[name][1] - ARITY[name][0]
+        elif r < 0.66:
+            a.op(rng.choice(ENV0))
+            depth += 1
+        elif r < 0.74:
+            name = rng.choice(["MSTORE", "SSTORE", "MSTORE8", "MLOAD", "SLOAD", "POP", "CALLDATALOAD", "BALANCE"])
+            if depth >= ARITY[name][0]:
+                a.op(name)
+                depth += ARITY[name][1] - ARITY[name][0]
+        elif r < 0.8:
+            n = rng.randrange(1, min(depth, 16) + 1)
+            if rng.random() < 0.5 and depth < 1000:
+                a.raw([0x7f + n])
+                depth += 1
+            elif n < depth:
+                a.raw([0x8f + n])
+        elif r < 0.86 and loops:
+            name = "L%d" % labels
+            labels += 1
+            a.label(name)
+            open_labels.append(name)
+        elif r < 0.93 and open_labels:
+            name = rng.choice(open_labels)
+            if rng.random() < 0.6:
+                a.push(small_or_boundary(rng, bw)).push_label(name).op("JUMPI")
+            else:
+                a.push_label(name).op("JUMP")
+        elif r < 0.96:
+            name = rng.choice(["SHA3", "CALLDATACOPY", "CODECOPY", "RETURNDATACOPY", "CALL", "STATICCALL", "CREATE",
+                               "CREATE2", "EXTCODECOPY", "DELEGATECALL", "CALLCODE"])
+            need = ARITY[name][0]
+            for _ in range(max(0, need - depth)):
+                a.push(small_or_boundary(rng, bw))
+                depth += 1
+            a.op(name)
+            depth += ARITY[name][1] - need
+        elif r < 0.98:
+            # forward jump over a little dead code
+            name = "L%d" % labels
+            labels += 1
+            if rng.random() < 0.5:
+                a.push(rng.randrange(2)).push_label(name).op("JUMPI")
+            else:
+                a.push_label(name).op("JUMP").op("INVALID")
+            a.label(name)
+            open_labels.append(name)
+        else:
+            a.op(rng.choice(["STOP", "RETURN", "REVERT", "INVALID", "SELFDESTRUCT"]))
+    if rng.random() < 0.7:
+        a.op("STOP")
+    return a.assemble()
+
+
+def random_config(rng, tight=True):
+    """(gas, iter, fork, size, mem, permissive)"""
+    if tight:
+        return (rng.choice([300, 1000, 5000, 100000, 30000000]), rng.randrange(1, 13), rng.randrange(1, 61),
+                rng.choice([1, 2, 3, 5, 10, 50, 250, 1000]), rng.choice([0, 1, 31, 32, 33, 64, 394, 1000]),
+                rng.randrange(2))
+    return (30000000, 10, 50, 250, 394, rng.randrange(2))
+
+
+def coq_config(cfg, poll_every=100, stop_at=None):
+    gas, it, fk, sz, mem, perm = cfg
+    return "(mk_config %d %d %d %d %d %s %d %s)" % (gas, it, fk, sz, mem, "true" if perm else "false", poll_every,
+                                                   "None" if stop_at is None else "(Some %d)" % stop_at)
+
+
+def vm_line(code, cfg, poll_every=100, stop_at=None):
+    gas, it, fk, sz, mem, perm = cfg
+    return "%s %d %d %d %d %d %d %d %d" % (code.hex(), gas, it, fk, sz, mem, perm, poll_every, -1 if stop_at is None else stop_at)
